@@ -72,10 +72,12 @@ def _(h):
 def _(h):
     """q1 given with the far sign: shortest=True must take the short way round (same rotation path as with -q1)"""
     q0, q1, n, t = pair(h, 1e-3, 1.5)
-    s = h.real('s', 0, 1)
+    s = h.real('s', 1e-6, 1 - 1e-6)      # the endpoints return q0 / q1 unchanged (same rotation, opposite sign)
     a = base.slerp(q0, -q1, s, shortest=True)
     b = base.slerp(q0, q1, s)
-    h.eq('same rotation as the short arc', h.arr(q2r_ref(a)), h.arr(q2r_ref(b)), tol=1e-6)
+    # flipping q0 and walking to -q1 is the mirror image of the short arc: a = -b component by component
+    h.eq('short arc taken (a = -b)', a, -b, tol=1e-6)
+    h.eq('unit norm', nsq(a), 1, tol=1e-6)
 
 
 # ----------------------------------------------------------------------------- matrix interpolators (rotations about z)
